@@ -11,6 +11,8 @@ import (
 	"context"
 	"encoding/json"
 	"fmt"
+	"os"
+	"path/filepath"
 	"sort"
 	"strings"
 	"testing"
@@ -47,6 +49,32 @@ return {};`
 	return &core.Spec{Name: "flipper", Nodes: map[string]*core.Node{
 		"start": wait("toB"), "toB": node("other"), "other": wait("toA"), "toA": node("start"),
 	}}
+}
+
+// vfGaugeSpec: a machine that remembers a number from a message in a pattern variable and
+// lets the matcher compare later messages with it - the matcher, not a script, looks at a
+// number that went through the store.
+func vfGaugeSpec() *core.Spec {
+	act := func(src, next string) *core.Node {
+		return &core.Node{ActionSource: &core.ActionSource{Interpreter: "ecmascript", Source: src},
+			Branches: &core.Branches{Type: "bindings", Branches: []*core.Branch{{Target: next}}}}
+	}
+	return &core.Spec{Name: "gauge", Nodes: map[string]*core.Node{
+		"start": {Branches: &core.Branches{Type: "message", Branches: []*core.Branch{{Pattern: map[string]interface{}{"gauge": "?g"}, Target: "arm"}}}},
+		"arm":   act(`return {"?g": _.bindings["?g"], "n": 0, "limit": _.bindings["?g"] + 1};`, "armed"),
+		"armed": {Branches: &core.Branches{Type: "message", Branches: []*core.Branch{
+			{Pattern: map[string]interface{}{"gauge": "?g"}, Target: "hit"},
+			{Pattern: map[string]interface{}{"gauge": "?"}, Target: "miss"}}}},
+		"hit":  act(`var b = _.bindings; b.n = b.n + 1; _.out({"hit": b.n}); return b;`, "armed"),
+		"miss": act(`var b = _.bindings; b.n = b.n + 1; _.out({"miss": b.n}); return b;`, "armed"),
+	}}
+}
+
+func vfGaugeJSON() interface{} {
+	b, _ := json.Marshal(vfGaugeSpec())
+	var x interface{}
+	json.Unmarshal(b, &x)
+	return x
 }
 
 func vfFlipperJSON() interface{} {
@@ -145,6 +173,9 @@ func vfOrdinary(c *Crew) []string {
 	return out
 }
 
+// vfBootViaStdio: the next vfBoot reads the stored crew through sio.Stdio.Read.
+var vfBootViaStdio bool
+
 // vfBoot builds a crew from a stored crew through the documented boot path.
 func vfBoot(ctx context.Context, stored map[string]*crew.Machine) (*Crew, error) {
 	b, err := json.Marshal(stored)
@@ -152,7 +183,23 @@ func vfBoot(ctx context.Context, stored map[string]*crew.Machine) (*Crew, error)
 		return nil, err
 	}
 	var ms map[string]*crew.Machine
-	if err := json.Unmarshal(b, &ms); err != nil {
+	if vfBootViaStdio {
+		// as siostd does: the state file is read back by the Stdio couplings
+		dir := os.Getenv("VERIF_SCRATCH")
+		if dir == "" {
+			dir = os.TempDir()
+		}
+		f := filepath.Join(dir, "state.json")
+		if err := os.WriteFile(f, b, 0o644); err != nil {
+			return nil, err
+		}
+		defer os.Remove(f)
+		st := NewStdio(false)
+		st.StateInputFilename = f
+		if ms, err = st.Read(ctx); err != nil {
+			return nil, err
+		}
+	} else if err := json.Unmarshal(b, &ms); err != nil {
 		return nil, err
 	}
 	c, _, err := vfNewCrew(ctx)
@@ -229,6 +276,14 @@ func runC15(c *sim.Ctx, t *testing.T) {
 				chain = m
 			}
 			ops = append(ops, vfOp{kind: "flip", mid: fid, msg: chain})
+		case k == 9:
+			// a gauge machine and a reading for it
+			gid := "g" + mid
+			if !exists[gid] {
+				ops = append(ops, vfOp{kind: "create", mid: gid, msg: map[string]interface{}{"to": "captain", "update": map[string]interface{}{gid: map[string]interface{}{"spec": map[string]interface{}{"inline": vfGaugeJSON()}}}}})
+				exists[gid] = true
+			}
+			ops = append(ops, vfOp{kind: "gauge", mid: gid, msg: map[string]interface{}{"to": gid, "gauge": []interface{}{1.0, 2.0, 2.5}[c.Intn(3, "reading")]}})
 		case k == 6 && exists[mid]:
 			// within one processed message: a machine tells the captain to delete a
 			// machine and then to create it again (or the other way round)
@@ -348,6 +403,7 @@ func runC15(c *sim.Ctx, t *testing.T) {
 		json.Unmarshal([]byte(shadows[b]), &stored)
 		var twin *Crew
 		var berr error
+		vfBootViaStdio = c.Bool("viastdio")
 		if c.Guard("boot from the store", func() { twin, berr = vfBoot(ctx, stored) }) {
 			return
 		}
